@@ -87,7 +87,22 @@ func c07ScriptCells() int {
 
 func c07HTTPCells() int { return len(c07HTTPDiscover) * 4 * 2 }
 
+// how a legacy HTTP+SSE endpoint that has never heard of server/discover answers the POST carrying it
+var c07SSEDiscover = []string{"400-plain", "404-plain", "405-plain", "500-plain", "202-error-on-stream", "202-silence"}
+
+func c07SSECells() int { return len(c07SSEDiscover) * 4 * 2 }
+
 func c07Cell(i int) c07Spec {
+	if i >= c07RealCells()+c07ScriptCells()+c07HTTPCells() {
+		i -= c07RealCells() + c07ScriptCells() + c07HTTPCells()
+		s := c07Spec{Part: "sse-script"}
+		s.Discover = c07SSEDiscover[i%len(c07SSEDiscover)]
+		i /= len(c07SSEDiscover)
+		s.Requested = []string{"", c07Modern, "2099-12-31", c07EmptyOptions}[i%4]
+		i /= 4
+		s.Handlers = i%2 == 1
+		return s
+	}
 	if i >= c07RealCells()+c07ScriptCells() {
 		i -= c07RealCells() + c07ScriptCells()
 		s := c07Spec{Part: "http-script"}
@@ -124,7 +139,7 @@ func c07Cell(i int) c07Spec {
 }
 
 func TestVerifC07(t *testing.T) {
-	total := c07RealCells() + c07ScriptCells() + c07HTTPCells()
+	total := c07RealCells() + c07ScriptCells() + c07HTTPCells() + c07SSECells()
 	cfg := vh.Config{
 		Property:   "C07",
 		Cases:      total,
@@ -145,6 +160,8 @@ func TestVerifC07(t *testing.T) {
 			c.Bubble("", func() { runC07Real(c, spec) })
 		case "http-script":
 			c.Bubble("", func() { runC07HTTP(c, spec) })
+		case "sse-script":
+			c.Bubble("", func() { runC07SSE(c, spec) })
 		default:
 			c.Bubble("", func() { runC07Script(c, spec) })
 		}
@@ -789,5 +806,140 @@ func runC07HTTP(c *vh.Case, spec c07Spec) {
 		c07Use(c, ctx, cs, v)
 	}
 	cs.Close()
+	time.Sleep(11 * time.Second)
+}
+
+// ---- real SSE client x scripted legacy HTTP+SSE endpoint that does not know server/discover
+
+type c07SSEServer struct {
+	c       *vh.Case
+	spec    c07Spec
+	mu      sync.Mutex
+	methods []string
+	stream  *io.PipeWriter
+}
+
+func (s *c07SSEServer) push(data string) {
+	s.mu.Lock()
+	w := s.stream
+	s.mu.Unlock()
+	if w != nil {
+		go w.Write([]byte("event: message\ndata: " + data + "\n\n"))
+	}
+}
+
+func (s *c07SSEServer) RoundTrip(req *http.Request) (*http.Response, error) {
+	if err := req.Context().Err(); err != nil {
+		return nil, err
+	}
+	mk := func(status int, ctype, body string) *http.Response {
+		h := http.Header{}
+		if ctype != "" {
+			h.Set("Content-Type", ctype)
+		}
+		return &http.Response{Status: fmt.Sprintf("%d %s", status, http.StatusText(status)), StatusCode: status, Proto: "HTTP/1.1", ProtoMajor: 1, ProtoMinor: 1, Header: h,
+			Body: io.NopCloser(strings.NewReader(body)), Request: req, ContentLength: int64(len(body))}
+	}
+	if req.Method == "GET" {
+		pr, pw := io.Pipe()
+		s.mu.Lock()
+		s.stream = pw
+		s.mu.Unlock()
+		context.AfterFunc(req.Context(), func() { pw.CloseWithError(req.Context().Err()) })
+		go pw.Write([]byte("event: endpoint\ndata: /messages?sessionid=1\n\n"))
+		return &http.Response{Status: "200 OK", StatusCode: 200, Proto: "HTTP/1.1", ProtoMajor: 1, ProtoMinor: 1, Header: http.Header{"Content-Type": {"text/event-stream"}}, Body: pr, Request: req, ContentLength: -1}, nil
+	}
+	body, _ := io.ReadAll(req.Body)
+	var m struct {
+		ID     json.RawMessage `json:"id"`
+		Method string          `json:"method"`
+		Params struct {
+			ProtocolVersion string `json:"protocolVersion"`
+		} `json:"params"`
+	}
+	json.Unmarshal(body, &m)
+	s.mu.Lock()
+	s.methods = append(s.methods, m.Method)
+	s.mu.Unlock()
+	s.c.Log.Add("sse-post", "method", m.Method)
+	switch m.Method {
+	case "server/discover":
+		switch s.spec.Discover {
+		case "400-plain":
+			return mk(400, "text/plain", "Bad Request: unknown method"), nil
+		case "404-plain":
+			return mk(404, "text/plain", "404 page not found"), nil
+		case "405-plain":
+			return mk(405, "text/plain", "method not allowed"), nil
+		case "500-plain":
+			return mk(500, "text/plain", "internal error"), nil
+		case "202-silence":
+			return mk(202, "", ""), nil // accepted and never answered: the client's own probe timeout decides
+		default:
+			s.push(fmt.Sprintf(`{"jsonrpc":"2.0","id":%s,"error":{"code":-32601,"message":"method not found"}}`, m.ID))
+			return mk(202, "", ""), nil
+		}
+	case "initialize":
+		v := m.Params.ProtocolVersion
+		if !slices.Contains(c07SDK, v) || v >= c07Modern {
+			v = "2025-11-25"
+		}
+		s.push(fmt.Sprintf(`{"jsonrpc":"2.0","id":%s,"result":%s}`, m.ID, vhm.InitializeResultJSON(v)))
+	case "tools/list":
+		s.push(fmt.Sprintf(`{"jsonrpc":"2.0","id":%s,"result":{"tools":[{"name":"echo","inputSchema":{"type":"object"}}]}}`, m.ID))
+	case "tools/call":
+		s.push(fmt.Sprintf(`{"jsonrpc":"2.0","id":%s,"result":{"content":[{"type":"text","text":"echo:hi"}]}}`, m.ID))
+	case "acme/search":
+		s.push(fmt.Sprintf(`{"jsonrpc":"2.0","id":%s,"result":{"hits":["hit:q"]}}`, m.ID))
+	default:
+		if len(m.ID) > 0 {
+			s.push(fmt.Sprintf(`{"jsonrpc":"2.0","id":%s,"result":{}}`, m.ID))
+		}
+	}
+	return mk(202, "", ""), nil
+}
+
+func runC07SSE(c *vh.Case, spec c07Spec) {
+	ctx := context.Background()
+	srv := &c07SSEServer{c: c, spec: spec}
+	client := c07Client(spec.Handlers)
+	cctx, cancel := context.WithTimeout(ctx, 10*time.Minute)
+	defer cancel()
+	cs, err := client.Connect(cctx, &mcp.SSEClientTransport{Endpoint: "http://example.test/sse", HTTPClient: &http.Client{Transport: srv}}, c07Options(spec.Requested))
+	srv.mu.Lock()
+	methods := append([]string(nil), srv.methods...)
+	srv.mu.Unlock()
+	c.Nontrivial(fmt.Sprintf("sse-script/%s/%s/%v", spec.Requested, spec.Discover, spec.Handlers))
+	if err != nil {
+		c.Log.Add("connect-failed", "err", err.Error())
+		if spec.Discover == "202-silence" {
+			// a server that swallows the probe: whether and when the client gives the probe up is its own policy
+			c.Seen("negotiated", fmt.Sprintf("sse-script/%s/%s->failed", spec.Requested, spec.Discover))
+		} else if !slices.Contains(methods, "initialize") {
+			c.Violate("no-fallback-to-initialize", "requested %q; the legacy SSE endpoint answered server/discover with %s; initialize was never sent (requests: %v): %v", spec.Requested, spec.Discover, methods, err)
+		} else {
+			c.Violate("connect-failed/sse-script", "requested %q; legacy SSE endpoint (discover answered %s) offers 2025-11-25 via initialize, but Connect failed (requests: %v): %v", spec.Requested, spec.Discover, methods, err)
+		}
+		srv.mu.Lock()
+		if srv.stream != nil {
+			srv.stream.Close()
+		}
+		srv.mu.Unlock()
+		time.Sleep(11 * time.Second)
+		return
+	}
+	v := cs.InitializeResult().ProtocolVersion
+	c.Seen("negotiated", fmt.Sprintf("sse-script/%s/%s->%s", spec.Requested, spec.Discover, v))
+	if v >= c07Modern || !slices.Contains(c07SDK, v) {
+		c.Violate("negotiated-version-server-lacks", "requested %q against a legacy SSE endpoint (discover: %s): negotiated %q", spec.Requested, spec.Discover, v)
+	} else {
+		c07Use(c, ctx, cs, v)
+	}
+	cs.Close()
+	srv.mu.Lock()
+	if srv.stream != nil {
+		srv.stream.Close()
+	}
+	srv.mu.Unlock()
 	time.Sleep(11 * time.Second)
 }
